@@ -135,8 +135,12 @@ class TemplateDPADistinguisherMixin(_BaseTemplateAttackDistinguisherMixin):
     def _get_dimension(self, traces, data):
         return data.shape[1]
 
+    def _initialize(self, traces, data):
+        super()._initialize(traces, data)
+        self._data_to_partition_index = partitioned._define_lut_func(self.partitions)
+
     def get_template_index(self, data, i):
-        return data[:, i]
+        return self._data_to_partition_index(data[:, i])
 
     @property
     def _distinguisher_str(self):
